@@ -24,6 +24,7 @@ func runC10(c *Ctx) {
 	}
 	ruleExtractionChecked(c, x, scope)
 	ruleNumericAccessors(c)
+	ruleAccessorsIdentity(c, "R10.a")
 	ruleNoDroppedRejection(c, scope)
 	ruleOptionalTails(c, x, scope)
 	ruleCollectors(c, x, scope)
